@@ -61,6 +61,16 @@ impl SizeManifest {
         // Validate header
         header.validate()?;
 
+        // Every entry takes the key and the size field: an entry count the input
+        // cannot hold must not size an allocation
+        let min_entry_size = header.ekey_size() as usize + header.esize_bytes() as usize;
+        if (header.entry_count() as usize).saturating_mul(min_entry_size) > data.len() {
+            return Err(SizeError::TruncatedData {
+                expected: (header.entry_count() as usize).saturating_mul(min_entry_size),
+                actual: data.len(),
+            });
+        }
+
         // Parse tags (between header and entries)
         let mut tags = Vec::with_capacity(header.tag_count() as usize);
         for _ in 0..header.tag_count() {
